@@ -24,6 +24,7 @@ import (
 	"fmt"
 	"go/ast"
 	"go/parser"
+	"go/printer"
 	"go/token"
 	"os"
 	"path/filepath"
@@ -62,6 +63,8 @@ type hfCtx struct {
 	writeM   map[string]bool
 	fn       *ast.FuncDecl
 	ids      map[string]int // variable numbering of this root (shared by inlined callees)
+	guard    string          // text of the innermost enclosing non-error condition (handler facts only)
+	constB   map[string]bool // parameters bound to a literal true/false at the inlined call site
 }
 
 // vid numbers a (renamed) variable; 0 is reserved for "unknown".
@@ -180,7 +183,10 @@ func (c *hfCtx) pos(n ast.Node) string {
 	p := c.pkg.fset.Position(n.Pos())
 	base := fmt.Sprintf("%s:%s", filepath.Base(p.Filename), c.fn.Name.Name)
 	if r, ok := n.(*ast.ReturnStmt); ok && len(r.Results) > 0 {
-		return base + ":" + exprText(r.Results[len(r.Results)-1])
+		base += ":" + exprText(r.Results[len(r.Results)-1])
+	}
+	if !fatalMode && c.guard != "" {
+		base += " @ " + c.guard
 	}
 	return base
 }
@@ -403,7 +409,8 @@ func (c *hfCtx) inline(fd *ast.FuncDecl, call *ast.CallExpr) (string, error) {
 		return ".ext", nil
 	}
 	sub := &hfCtx{pkg: c.pkg, stateVar: map[string]bool{}, ctxVar: map[string]bool{}, rename: map[string]string{},
-		stack: append(append([]string{}, c.stack...), name), readM: c.readM, writeM: c.writeM, fn: fd, ids: c.ids}
+		stack: append(append([]string{}, c.stack...), name), readM: c.readM, writeM: c.writeM, fn: fd, ids: c.ids,
+		constB: map[string]bool{}}
 	// parameters
 	i := 0
 	for _, fld := range fd.Type.Params.List {
@@ -420,6 +427,9 @@ func (c *hfCtx) inline(fd *ast.FuncDecl, call *ast.CallExpr) (string, error) {
 			}
 			i++
 			an := identName(arg)
+			if ts == "bool" && (an == "true" || an == "false") {
+				sub.constB[pn.Name] = an == "true"
+			}
 			if strings.Contains(ts, "MutableState") || strings.Contains(ts, "StakeAccumulatorCache") {
 				sub.stateVar[pn.Name] = true
 				if an != "" {
@@ -584,13 +594,41 @@ func (c *hfCtx) stmtFlow(s ast.Stmt) (string, error) {
 			return "", err
 		}
 		parts = append(parts, condFl)
+		if v, ok := c.constCond(x.Cond); ok {
+			// decided by a boolean literal bound at the inlined call site: only that branch exists
+			if v {
+				fl, err := c.blockFlow(x.Body.List)
+				if err != nil {
+					return "", err
+				}
+				return seq(append(parts, fl)), nil
+			}
+			if x.Else != nil {
+				fl, err := c.stmtFlow(x.Else)
+				if err != nil {
+					return "", err
+				}
+				return seq(append(parts, fl)), nil
+			}
+			return seq(parts), nil
+		}
+		savedGuard := c.guard
+		plainErr := isErrNotNil(x.Cond) || isErrIsNil(x.Cond)
+		if !plainErr {
+			c.guard = c.condText(x.Cond)
+		}
 		thenFl, err := c.blockFlow(x.Body.List)
+		c.guard = savedGuard
 		if err != nil {
 			return "", err
 		}
 		elseFl := ".skip"
 		if x.Else != nil {
+			if !plainErr {
+				c.guard = "!(" + c.condText(x.Cond) + ")"
+			}
 			elseFl, err = c.stmtFlow(x.Else)
+			c.guard = savedGuard
 			if err != nil {
 				return "", err
 			}
@@ -661,14 +699,23 @@ func (c *hfCtx) stmtFlow(s ast.Stmt) (string, error) {
 			}
 			ft = append(ft, isFT)
 			var cparts []string
+			var gtexts []string
 			for _, e := range cc.List {
 				fl, err := c.exprFlow(e)
 				if err != nil {
 					return "", err
 				}
 				cparts = append(cparts, fl)
+				gtexts = append(gtexts, c.condText(e))
+			}
+			savedGuard := c.guard
+			if cc.List == nil {
+				c.guard = "default"
+			} else {
+				c.guard = "case " + strings.Join(gtexts, ", ")
 			}
 			fl, err := c.blockFlow(cc.Body)
+			c.guard = savedGuard
 			if err != nil {
 				return "", err
 			}
@@ -795,6 +842,59 @@ func (c *hfCtx) stmtFlow(s ast.Stmt) (string, error) {
 
 func isCall(e ast.Expr) bool { _, ok := e.(*ast.CallExpr); return ok }
 
+// condText renders a condition as source text (whitespace-normalised, truncated).
+func (c *hfCtx) condText(e ast.Expr) string {
+	if e == nil {
+		return ""
+	}
+	var b strings.Builder
+	if err := printer.Fprint(&b, c.pkg.fset, e); err != nil {
+		return "?"
+	}
+	t := strings.Join(strings.Fields(b.String()), " ")
+	if len(t) > 90 {
+		t = t[:90]
+	}
+	return t
+}
+
+// constCond evaluates a condition that only depends on parameters bound to boolean literals.
+// ok is false when the condition is not decided by them.
+func (c *hfCtx) constCond(e ast.Expr) (val, ok bool) {
+	switch x := e.(type) {
+	case *ast.ParenExpr:
+		return c.constCond(x.X)
+	case *ast.Ident:
+		v, ok := c.constB[x.Name]
+		return v, ok
+	case *ast.UnaryExpr:
+		if x.Op == token.NOT {
+			v, ok := c.constCond(x.X)
+			return !v, ok
+		}
+	case *ast.BinaryExpr:
+		l, lok := c.constCond(x.X)
+		r, rok := c.constCond(x.Y)
+		switch x.Op {
+		case token.LAND:
+			if (lok && !l) || (rok && !r) {
+				return false, true
+			}
+			if lok && rok {
+				return true, true
+			}
+		case token.LOR:
+			if (lok && l) || (rok && r) {
+				return true, true
+			}
+			if lok && rok {
+				return false, true
+			}
+		}
+	}
+	return false, false
+}
+
 // isErrWrap recognises `fmt.Errorf("…%w…", …, err)`: propagation of the pending error.
 func isErrWrap(e ast.Expr) bool {
 	call, ok := e.(*ast.CallExpr)
@@ -867,7 +967,7 @@ func genHandlerFacts(repo, out string, args []string) error {
 		{"beacon", "backendVRF.ExecuteTx"}, {"beacon", "backendInsecure.ExecuteTx"},
 		{"keymanager/secrets", "ExecuteTx"}, {"keymanager/churp", "ExecuteTx"},
 		{"staking", "ExecuteMessage"}, {"registry", "ExecuteMessage"}, {"governance", "ExecuteMessage"},
-		{"roothash", "ExecuteMessage"}, {"vault", "ExecuteMessage"},
+		{"roothash", "ExecuteMessage"}, {"vault", "ExecuteMessage"}, {"scheduler", "ExecuteMessage"},
 	}
 	var b strings.Builder
 	b.WriteString("import OasisModel.Handlers.Flow\n/- REGENERATED by tools/gen handlerfacts from /repo — do not edit. -/\nnamespace Generated.HandlerFacts\nopen OasisModel.Handlers\n\n")
@@ -884,7 +984,7 @@ func genHandlerFacts(repo, out string, args []string) error {
 			return fmt.Errorf("%s: %s not found or ambiguous", r.dir, r.fn)
 		}
 		c := &hfCtx{pkg: p, stateVar: map[string]bool{}, ctxVar: map[string]bool{}, rename: map[string]string{},
-			stack: []string{r.fn}, readM: readM, writeM: writeM, fn: fd, ids: map[string]int{}}
+			stack: []string{r.fn}, readM: readM, writeM: writeM, fn: fd, ids: map[string]int{}, constB: map[string]bool{}}
 		for _, fld := range fd.Type.Params.List {
 			ts := typeStr(fld.Type)
 			for _, n := range fld.Names {
@@ -908,6 +1008,69 @@ func genHandlerFacts(repo, out string, args []string) error {
 			sep = ""
 		}
 		b.WriteString(fmt.Sprintf("  (%s, %s)%s\n", q(n), n, sep))
+	}
+	b.WriteString("]\n\n")
+
+	// Per-message-kind flows of every ExecuteMessage root: `switch msg.Kind { case K: … }`.
+	type mk struct{ root, kind, def string }
+	var kinds []mk
+	for _, r := range roots {
+		if !strings.HasSuffix(r.fn, "ExecuteMessage") {
+			continue
+		}
+		p, err := loadPkg(filepath.Join(apps, r.dir))
+		if err != nil {
+			return err
+		}
+		fd := p.funcs[r.fn]
+		rootID := strings.ReplaceAll(r.dir, "/", "_") + "_" + strings.ReplaceAll(r.fn, ".", "_")
+		for si, st := range fd.Body.List {
+			sw, ok := st.(*ast.SwitchStmt)
+			if !ok {
+				continue
+			}
+			if se, ok := sw.Tag.(*ast.SelectorExpr); !ok || se.Sel.Name != "Kind" {
+				continue
+			}
+			for _, cl := range sw.Body.List {
+				cc := cl.(*ast.CaseClause)
+				for _, ke := range cc.List {
+					kname := exprText(ke)
+					if i := strings.LastIndex(kname, "."); i >= 0 {
+						kname = kname[i+1:]
+					}
+					c := &hfCtx{pkg: p, stateVar: map[string]bool{}, ctxVar: map[string]bool{}, rename: map[string]string{},
+						stack: []string{r.fn}, readM: map[string]bool{}, writeM: map[string]bool{}, fn: fd, ids: map[string]int{}, constB: map[string]bool{}}
+					for _, fld := range fd.Type.Params.List {
+						ts := typeStr(fld.Type)
+						for _, n := range fld.Names {
+							if strings.HasSuffix(ts, "Context") {
+								c.ctxVar[n.Name] = true
+							}
+						}
+					}
+					pre, err := c.blockFlow(fd.Body.List[:si])
+					if err != nil {
+						return err
+					}
+					body, err := c.blockFlow(cc.Body)
+					if err != nil {
+						return err
+					}
+					def := rootID + "__" + kname
+					b.WriteString(fmt.Sprintf("def %s : Flow :=\n  %s\n\n", def, seq([]string{pre, body})))
+					kinds = append(kinds, mk{rootID, kname, def})
+				}
+			}
+		}
+	}
+	b.WriteString("def msgKinds : List (String × String × Flow) := [\n")
+	for i, k := range kinds {
+		sep := ","
+		if i == len(kinds)-1 {
+			sep = ""
+		}
+		b.WriteString(fmt.Sprintf("  (%s, %s, %s)%s\n", q(k.root), q(k.kind), k.def, sep))
 	}
 	b.WriteString("]\n\n")
 	b.WriteString("def writeMethods : List String := [" + joinSorted(writeM) + "]\n")
@@ -948,7 +1111,7 @@ func genFatalPaths(repo, out string, args []string) error {
 			return fmt.Errorf("%s: %s not found or ambiguous", r.dir, r.fn)
 		}
 		c := &hfCtx{pkg: p, stateVar: map[string]bool{}, ctxVar: map[string]bool{}, rename: map[string]string{},
-			stack: []string{r.fn}, readM: map[string]bool{}, writeM: map[string]bool{}, fn: fd, ids: map[string]int{}}
+			stack: []string{r.fn}, readM: map[string]bool{}, writeM: map[string]bool{}, fn: fd, ids: map[string]int{}, constB: map[string]bool{}}
 		for _, fld := range fd.Type.Params.List {
 			ts := typeStr(fld.Type)
 			for _, n := range fld.Names {
